@@ -26,6 +26,8 @@ def _relabel(x, lo, bo):
     out = {}
     is_term = 'k' in x and x.get('k') in ('goto', 'switch', 'drop', 'call', 'assert', 'yield', 'falseedge')
     for k, v in x.items():
+        if k in ('@', '@i'):
+            continue                        # use-site annotations of the source body: recomputed for the new body (Body._annotate)
         if k == 'l' and isinstance(v, int):
             out[k] = v + lo
         elif k == 'idx' and isinstance(v, int):
@@ -39,6 +41,11 @@ def _relabel(x, lo, bo):
         else:
             out[k] = _relabel(v, lo, bo)
     return out
+
+
+def _fresh(x):
+    """deep copy of a block that is going to live under another block id: use-site annotations are dropped (recomputed by Body._annotate)"""
+    return _relabel(x, 0, 0)
 
 
 def _plain_fn(b):
@@ -284,7 +291,7 @@ def _split_tails(hd, new, extra, bo, variants, thread_fn):
             prev = None
             last = None
             for c in chain:
-                cl = copy.deepcopy(new[c])
+                cl = _fresh(new[c])
                 cid = bo + len(new) + len(extra)
                 extra.append(cl)
                 if first is None:
@@ -322,7 +329,7 @@ def _thread(ret_block, thread, variant, blocks, new, extra, bo):
     first = None
     prev = None
     for ci, cid in enumerate(chain):
-        cb = copy.deepcopy(blocks[cid])
+        cb = _fresh(blocks[cid])
         cb['threaded'] = variant
         nid = bo + len(new) + len(extra)
         extra.append(cb)
@@ -407,7 +414,7 @@ def inline_body(d, helpers, raw_by_path, depth=0, stack=()):
                             # split the shared return block per predecessor: each copy then has one reaching definition of the result
                             for pi, pb in preds:
                                 v = variants[('out', pi)]
-                                clone = copy.deepcopy(new[hi])
+                                clone = _fresh(new[hi])
                                 cid = bo + len(new) + len(extra)
                                 extra.append(clone)
                                 _retarget(new[pi]['term'], bo + hi, cid)
